@@ -10,9 +10,12 @@ LEAN_MODULES = ["QbiceVerif.Props.C03"]
 DRIVER = "drv_engine"
 HARNESS_BIN = "engine"
 PARTIAL = [
-    "core_exec_justified / core_exec_once / core_rounds_exec_once / core_*_executes_nothing are proved in full for the "
-    "core model (input, normal and external-input queries, unordered groups, refresh). For firewall / projection nodes the justification rule is enforced "
-    "by the harness oracle on the implementation and by equality of executor-invocation multisets with the full model.",
+    "Qbice.CoreFw.core_exec_justified_partial / core_exec_once_partial / core_rounds_exec_once_partial / "
+    "core_external_only_on_demand_or_refresh_partial: proved for all acyclic programs without projection nodes "
+    "(firewalls included); core_requery_executes_nothing and core_refresh_reexecutes_all_externals for all kinds. For "
+    "projection nodes the justification rule (C03_exec_justified_full_statement, with the backward-projection "
+    "disjunct) is enforced by the harness oracle on the implementation and by equality of executor-invocation "
+    "multisets with both models.",
 ]
 ASSUMPTIONS = c01.ASSUMPTIONS + ["no cancellation (the property excludes it)"]
 TRUSTED_EXTRA = c01.TRUSTED_EXTRA
